@@ -97,3 +97,27 @@ From PV.Alg Require Import NHRefuted.
 Theorem C05_similarity_refuted : nh_wit_check = true /\ nh_wit_kept = false.
 Proof. exact nh_witness. Qed.
 Print Assumptions C05_similarity_refuted.
+
+(** Last clause: on Hermitian input the three outputs coincide with those of the Hermitian mode
+    - proved in the domain of validity of the similarity theorems ([H_0, S x] = 0), by
+    uniqueness of the similarity transformation with this gauge (Alg/UniqueNH.v). *)
+From PV.Alg Require Import MainLift MainCorrect Coincide.
+Theorem C05_hermitian_coincide_partial :
+  forall (T : Type) (r0 r1 : T) (add mul sub : T -> T -> T) (opp : T -> T) (req : T -> T -> Prop)
+         (Ro : @Ring_ops T r0 r1 add mul sub opp req) (Rg : @Ring T r0 r1 add mul sub opp req Ro)
+         (BA : BlockAlg T) (gflag : string -> bool) (rflag : string -> T -> T) (fenv : string -> list T -> T)
+         (solh soln : string -> T),
+    solution (gflag_of false) rflag fenv solh main_alg ->
+    solution gflag rflag fenv soln nonhermitian_alg ->
+    wiring rflag fenv (solh "H") ->
+    soln "H" == solh "H" ->
+    (forall x, comm (Zc (solh "H")) (Sel x) == 0) ->
+    (forall x, Rp (MainLift.sylv fenv (comm (Zc (solh "H")) (Rp x))) == Rp x) ->
+    soln "U" == solh "U" /\ soln "U†" == solh "U†" /\ soln "H_tilde" == solh "H_tilde".
+Proof.
+  intros. split; [|split].
+  - eapply nh_coincides_U; eassumption.
+  - eapply nh_coincides_U; eassumption.
+  - eapply nh_coincides_Ht; eassumption.
+Qed.
+Print Assumptions C05_hermitian_coincide_partial.
